@@ -251,6 +251,26 @@ def input_names(ob):
     return names
 
 
+def consts_in(asserts):
+    seen = set()
+    names = set()
+    stack = list(asserts)
+    while stack:
+        t = stack.pop()
+        k = t.get_id()
+        if k in seen:
+            continue
+        seen.add(k)
+        if z3.is_quantifier(t):
+            stack.append(t.body())
+            continue
+        if z3.is_app(t):
+            if t.num_args() == 0 and t.decl().kind() == z3.Z3_OP_UNINTERPRETED:
+                names.add(t.decl().name())
+            stack.extend(t.children())
+    return names
+
+
 def smt_name(n):
     import re
     if re.fullmatch(r'[A-Za-z_][A-Za-z0-9_.!?@$%^&*<>=+-]*', n) and not n[0].isdigit():
@@ -268,7 +288,8 @@ def discharge(obls, budget=10.0, workers=None):
             gv = []
         else:
             asserts = list(ob.assumptions) + [z3.Not(ob.goal)]
-            gv = [smt_name(n) for n in input_names(ob)]
+            present = consts_in(asserts)
+            gv = [smt_name(n) for n in input_names(ob) if n in present]
         # quick syntactic discharge
         simp = z3.simplify(z3.And(asserts)) if asserts else z3.BoolVal(True)
         if z3.is_false(simp):
